@@ -69,6 +69,48 @@ pub struct Nested {
     pub note: Option<String>,
 }
 
+// Messages whose archived form has alignment 1 or 2 and a size that is not a multiple of 4
+// (a frame layout that pads or aligns the body shows only on these).
+#[repr(C)]
+#[derive(Serialize, Deserialize, Archive, PartialEq, Eq, Debug, Clone, Hash)]
+#[archive(check_bytes)]
+pub struct Knob {
+    pub channel: u8,
+    pub level: u8,
+    pub attempt: u8,
+}
+
+#[repr(C)]
+#[derive(Serialize, Deserialize, Archive, PartialEq, Eq, Debug, Clone, Hash)]
+#[archive(check_bytes)]
+pub struct Half {
+    pub v: u16,
+}
+
+#[repr(C)]
+#[derive(Serialize, Deserialize, Archive, PartialEq, Eq, Debug, Clone, Hash)]
+#[archive(check_bytes)]
+pub struct Flag {
+    pub on: bool,
+}
+
+#[repr(C)]
+#[derive(Serialize, Deserialize, Archive, PartialEq, Eq, Debug, Clone, Hash)]
+#[archive(check_bytes)]
+pub struct Five {
+    pub bytes: [u8; 5],
+    pub mode: Mode,
+}
+
+#[repr(u8)]
+#[derive(Serialize, Deserialize, Archive, PartialEq, Eq, Debug, Clone, Copy, Hash)]
+#[archive(check_bytes)]
+pub enum Mode {
+    Off,
+    Low,
+    High,
+}
+
 #[repr(C)]
 #[derive(Serialize, Deserialize, Archive, PartialEq, Eq, Debug, Clone, Hash)]
 #[archive(check_bytes)]
@@ -105,6 +147,10 @@ impl RpcService for EchoSvc {
         registry.add_handler::<Texty>();
         registry.add_handler::<Nested>();
         registry.add_handler::<FailWith>();
+        registry.add_handler::<Knob>();
+        registry.add_handler::<Half>();
+        registry.add_handler::<Flag>();
+        registry.add_handler::<Five>();
     }
 }
 
@@ -124,6 +170,10 @@ macro_rules! echo {
 echo!(Fixed);
 echo!(Texty);
 echo!(Nested);
+echo!(Knob);
+echo!(Half);
+echo!(Flag);
+echo!(Five);
 
 fn code_of(n: u8) -> ErrorCode {
     match n {
@@ -252,6 +302,23 @@ async fn round_trips(tier: Tier, st: &mut Stats) {
     trip!(fixed_values(), "fixed");
     trip!(texty_values(&sizes), "texty");
     trip!(nested_values(&sizes), "nested");
+    let bytes = [0u8, 1, 3, 7, 9, 0x7F, 0x80, 0xFF];
+    let mut knobs: Vec<Knob> = Vec::new();
+    for a in bytes {
+        for b in bytes {
+            for c in bytes {
+                knobs.push(Knob { channel: a, level: b, attempt: c });
+            }
+        }
+    }
+    trip!(knobs, "tiny-3-bytes");
+    trip!([0u16, 1, 0x00FF, 0x0100, 1801, 0x7FFF, 0x8000, u16::MAX].map(|v| Half { v }), "tiny-u16");
+    trip!([Flag { on: false }, Flag { on: true }], "tiny-bool");
+    let fives: Vec<Five> = [Mode::Off, Mode::Low, Mode::High]
+        .into_iter()
+        .flat_map(|mode| [[0u8; 5], [0xFF; 5], [1, 2, 3, 4, 5], [9, 0, 0, 0, 7]].map(move |bytes| Five { bytes, mode }))
+        .collect();
+    trip!(fives, "tiny-6-bytes");
 
     // handler errors: every code x message text
     for code in 0..5u8 {
